@@ -81,9 +81,36 @@ theorem items_simple (g : Gate) (bits : List Nat) (ctx : List Mark) (marks : Lis
   | comp _ _ _ => simp [simple] at hs
   | loop _ _ => simp [simple] at hs
 
+theorem condWrites_mem (t : Nat) : ∀ (bp : List (Nat × Nat)) (pb : Nat), ∀ p ∈ condWrites t bp pb,
+    ∃ x ∈ bp, ∃ off, p = (x.1, condSym t x.2 off)
+  | [], _ => by intro p hp; cases hp
+  | (bit, pos) :: rest, pb => by
+    intro p hp
+    simp only [condWrites, List.mem_cons] at hp
+    rcases hp with rfl | hp
+    · exact ⟨(bit, pos), by simp, _, rfl⟩
+    · obtain ⟨x, hx, off, he⟩ := condWrites_mem t rest bit p hp
+      exact ⟨x, by simp [hx], off, he⟩
+
+theorem condWrites_of_mem (t : Nat) : ∀ (bp : List (Nat × Nat)) (pb : Nat), ∀ x ∈ bp,
+    ∃ off, (x.1, condSym t x.2 off) ∈ condWrites t bp pb
+  | [], _ => by intro x hx; cases hx
+  | (bit, pos) :: rest, pb => by
+    intro x hx
+    simp only [List.mem_cons] at hx
+    rcases hx with rfl | hx
+    · exact ⟨(pb : Int) - (bit : Int), by simp [condWrites]⟩
+    · obtain ⟨off, h⟩ := condWrites_of_mem t rest bit x hx
+      exact ⟨off, by simp [condWrites, h]⟩
+
+theorem accepts_condSym (t pos : Nat) (off : Int) : accepts (.cctl (t.testBit pos)) (condSym t pos off) = true := by
+  unfold condSym
+  cases h : t.testBit pos <;> simp [accepts]
+
 /-- Operations that are drawn in one column and covered here. -/
 def oneColumn : Op → Bool
   | .gate g bits => simple g && goodPlace g bits
+  | .cond _ _ g bits => simple g && goodPlace g bits
   | .measure _ _ _ => true
   | .reset _ => true
   | _ => false
@@ -118,11 +145,295 @@ theorem stage_is_expected (nq : Nat) (op : Op) (h : oneColumn op = true) :
   | reset q =>
     refine ⟨_, _, _, [(q, .reset)], rfl, rfl, ?_⟩
     constructor <;> simp [accepts]
-  | cond _ _ _ _ => simp [oneColumn] at h
+  | cond control target g bits =>
+    simp only [oneColumn, Bool.and_eq_true] at h
+    obtain ⟨marks, hm, hmatch, hne⟩ := writes_single g bits true h.1 h.2
+    have hb : bits ≠ [] := by
+      intro hb; subst hb; rw [goodPlace_ne_nil] at h; exact absurd h.2 (by simp)
+    have hnn : marks ≠ [] := by
+      intro he; subst he
+      obtain ⟨b, hb'⟩ := List.exists_mem_of_ne_nil bits hb
+      obtain ⟨p, hp, _⟩ := writes_cover g bits true h.1 h.2 b hb'
+      obtain ⟨m, hmm, _⟩ := hmatch.1 p hp
+      cases hmm
+    let ctx : List Mark := control.zipIdx.map fun (idx, pos) => ⟨nq + idx, .cctl (target.testBit pos)⟩
+    have hitems : opItems nq (.cond control target g bits) = [.stage (marks ++ ctx) [] true] := by
+      simp only [opItems]
+      rw [items_simple g bits _ marks h.1 hm hne hnn]
+      split
+      · rfl
+      · rename_i m0 rest hctx
+        have hin : m0 ∈ marks ++ ctx := by
+          apply List.mem_append_right
+          show m0 ∈ List.map _ _
+          rw [hctx]; simp
+        have hc : (marks ++ ctx).contains m0 = true := by simpa using hin
+        simp only [List.any_cons, List.any_nil, Item.hasMark, Bool.or_false]
+        rw [show (marks ++ List.map (fun x : Nat × Nat => ({ wire := nq + x.fst, kind := MarkKind.cctl (target.testBit x.snd) } : Mark))
+          control.zipIdx) = marks ++ ctx from rfl, hc]
+        simp
+    match bits, hb with
+    | q0 :: qs, _ =>
+      let bp := sortPairs (control.zipIdx.map fun (idx, pos) => (nq + idx, pos))
+      refine ⟨marks ++ ctx, [], true, writes g (q0 :: qs) true ++ condWrites target bp (qs.foldl max q0), hitems, rfl, ?_, ?_⟩
+      · intro p hp
+        rcases List.mem_append.mp hp with hp | hp
+        · obtain ⟨m, hmm, a, b⟩ := hmatch.1 p hp
+          exact ⟨m, List.mem_append_left _ hmm, a, b⟩
+        · obtain ⟨x, hx, off, rfl⟩ := condWrites_mem target bp _ p hp
+          have hx' := (sortPairs_perm _).mem_iff.mp hx
+          obtain ⟨y, hy, rfl⟩ := List.mem_map.mp hx'
+          refine ⟨⟨nq + y.1, .cctl (target.testBit y.2)⟩, List.mem_append_right _ (List.mem_map.mpr ⟨y, hy, rfl⟩), rfl, ?_⟩
+          exact accepts_condSym _ _ _
+      · intro m hmm
+        rcases List.mem_append.mp hmm with hmm | hmm
+        · obtain ⟨p, hp, a, b⟩ := hmatch.2 m hmm
+          exact ⟨p, List.mem_append_left _ hp, a, b⟩
+        · obtain ⟨y, hy, rfl⟩ := List.mem_map.mp hmm
+          have hx : (nq + y.1, y.2) ∈ bp := (sortPairs_perm _).mem_iff.mpr (List.mem_map.mpr ⟨y, hy, rfl⟩)
+          obtain ⟨off, hin⟩ := condWrites_of_mem target bp (qs.foldl max q0) _ hx
+          exact ⟨_, List.mem_append_right _ hin, rfl, accepts_condSym _ _ _⟩
   | resetAll => simp [oneColumn] at h
   | measureAll _ _ => simp [oneColumn] at h
   | peek _ _ _ => simp [oneColumn] at h
   | peekAll _ _ => simp [oneColumn] at h
   | barrier _ => simp [oneColumn] at h
+
+/-! ## Kron / Composite / Loop: the stage list against the reader's item list -/
+
+/-- The stage items of an item list (loop brackets dropped). -/
+def itemStages : List Item → List (List Mark)
+  | [] => []
+  | .stage marks _ _ :: rest => marks :: itemStages rest
+  | .loopBegin _ :: rest => itemStages rest
+  | .loopEnd :: rest => itemStages rest
+
+theorem itemStages_append (a b : List Item) : itemStages (a ++ b) = itemStages a ++ itemStages b := by
+  induction a with
+  | nil => rfl
+  | cons x xs ih => cases x <;> simp [itemStages, ih]
+
+/-- A stage that consists of explicit bare wires only (the drawing of identity gates): the reader does
+not look for it. -/
+def allWire (ws : List (Nat × Sym)) : Bool := ws.all fun p => p.2 == .qw
+
+def visible (S : List (List (Nat × Sym))) : List (List (Nat × Sym)) := S.filter fun ws => !allWire ws
+
+theorem visible_append (a b : List (List (Nat × Sym))) : visible (a ++ b) = visible a ++ visible b := by
+  simp [visible]
+
+def StagesMatch : List (List (Nat × Sym)) → List (List Mark) → Prop
+  | [], [] => True
+  | ws :: r, ms :: r' => StageMatches ws ms ∧ StagesMatch r r'
+  | [], _ :: _ => False
+  | _ :: _, [] => False
+
+theorem StagesMatch.append : ∀ {a : List (List (Nat × Sym))} {a' : List (List Mark)} {b b'},
+    StagesMatch a a' → StagesMatch b b' → StagesMatch (a ++ b) (a' ++ b')
+  | [], [], _, _, _, h2 => by simpa using h2
+  | _ :: _, _ :: _, _, _, h1, h2 => by
+    simp only [List.cons_append, StagesMatch] at h1 ⊢
+    exact ⟨h1.1, StagesMatch.append h1.2 h2⟩
+  | [], _ :: _, _, _, h1, _ => by simp [StagesMatch] at h1
+  | _ :: _, [], _, _, h1, _ => by simp [StagesMatch] at h1
+
+theorem subBits_eq_mapBits (bits : List Nat) : ∀ (sb : List Nat), sb.any (· ≥ bits.length) = false →
+    subBits bits sb = some (mapBits bits sb)
+  | [], _ => rfl
+  | b :: rest, h => by
+    simp only [List.any_cons, Bool.or_eq_false_iff, decide_eq_false_iff_not, Nat.not_le] at h
+    have ih := subBits_eq_mapBits bits rest (by simpa using h.2)
+    simp only [subBits, ih, mapBits, List.map_cons]
+    rw [List.getElem?_eq_getElem h.1]
+    simp [List.getD_eq_getElem?_getD, List.getElem?_eq_getElem h.1]
+
+/-- A one-column gate is one visible stage matching the reader's one stage item. -/
+theorem simple_stage_items (g : Gate) (bits : List Nat) (hs : simple g = true) (hg : goodPlace g bits = true) :
+    StagesMatch (visible [writes g bits false]) (itemStages (items g bits [])) := by
+  obtain ⟨marks, hm, hmatch, hne⟩ := writes_single g bits false hs hg
+  have hb : bits ≠ [] := by
+    intro hb; subst hb; rw [goodPlace_ne_nil] at hg; cases hg
+  obtain ⟨b, hb'⟩ := List.exists_mem_of_ne_nil bits hb
+  obtain ⟨p, hp, _, hgp⟩ := writes_cover g bits false hs hg b hb'
+  have hnn : marks ≠ [] := by
+    intro he; subst he
+    obtain ⟨m, hmm, _⟩ := hmatch.1 p hp
+    cases hmm
+  have hvis : allWire (writes g bits false) = false := by
+    rw [← Bool.not_eq_true]
+    intro hall
+    have := List.all_eq_true.mp hall p hp
+    have hq : p.2 = .qw := by simpa using this
+    rw [hq] at hgp; simp [Sym.isGatePart] at hgp
+  rw [items_simple g bits [] marks hs hm hne hnn]
+  simp only [visible, List.filter_cons, hvis, Bool.not_false, if_true, List.filter_nil, itemStages, StagesMatch,
+    List.append_nil, and_true]
+  exact hmatch
+
+mutual
+/-- **The reference stages of a gate of the proved class are what the independent reader expects**:
+the visible stages (explicit identity wires dropped) match the reader's stage items one by one, in
+order — for well-formed operand lists (`gateMalformed = false`, the reader's own notion). -/
+theorem gateStages_items : ∀ (g : Gate) (bits : List Nat), topOk g bits = true → gateMalformed g bits = false →
+    StagesMatch (visible (gateStages g bits false)) (itemStages (items g bits []))
+  | .box l n, bits, ht, _ => by
+    simp only [topOk, Bool.and_eq_true, decide_eq_true_eq] at ht
+    simpa [gateStages] using simple_stage_items _ bits ht.1.1 ht.1.2
+  | .x, bits, ht, _ => by
+    simp only [topOk] at ht
+    simpa [gateStages] using simple_stage_items .x bits rfl ht
+  | .z, bits, ht, _ => by
+    simp only [topOk] at ht
+    simpa [gateStages] using simple_stage_items .z bits rfl ht
+  | .swap, bits, ht, _ => by
+    simp only [topOk, Bool.and_eq_true, decide_eq_true_eq] at ht
+    simpa [gateStages] using simple_stage_items .swap bits rfl ht.1
+  | .c g, bits, ht, _ => by
+    simp only [topOk, Bool.and_eq_true, decide_eq_true_eq] at ht
+    simpa [gateStages] using simple_stage_items (.c g) bits (by simpa [simple] using ht.1.1) ht.1.2
+  | .i, bits, _, _ => by
+    have hit : items .i bits [] = [] := by
+      simp [items, single]
+    rw [hit]
+    cases bits <;> simp [gateStages, visible, allWire, itemStages, StagesMatch]
+  | .kron a b, bits, ht, hm => by
+    simp only [topOk, Bool.and_eq_true] at ht
+    simp only [gateMalformed, Bool.or_eq_false_iff] at hm
+    have h1 := gateStages_items a _ ht.1 hm.1.2
+    have h2 := gateStages_items b _ ht.2 hm.2
+    have : items (.kron a b) bits [] = items a (bits.take a.nbits) [] ++ items b (bits.drop a.nbits) [] := by
+      simp [items]
+    rw [this, itemStages_append]
+    simp only [gateStages, visible_append]
+    exact h1.append h2
+  | .comp name n ops, bits, ht, hm => by
+    simp only [topOk] at ht
+    simp only [gateMalformed, Bool.or_eq_false_iff] at hm
+    have : items (.comp name n ops) bits [] = subItems ops bits [] := by simp [items]
+    rw [this]
+    simp only [gateStages]
+    exact subsStages_items ops bits ht hm.2
+  | .loop iters body, bits, ht, hm => by
+    simp only [topOk] at ht
+    simp only [gateMalformed] at hm
+    have hb := gateStages_items body bits ht hm
+    match iters with
+    | 0 => simp [gateStages, items, visible, itemStages, StagesMatch]
+    | 1 => simpa [gateStages, items] using hb
+    | 2 =>
+      have : items (.loop 2 body) bits [] = items body bits [] ++ items body bits [] := by simp [items]
+      rw [this, itemStages_append]
+      simp only [gateStages, visible_append]
+      exact hb.append hb
+    | k + 3 =>
+      match bits, hb with
+      | [], _ => simp [gateStages, items, visible, itemStages, StagesMatch]
+      | b :: bs, hb =>
+        have : items (.loop (k + 3) body) (b :: bs) [] =
+            [.loopBegin (k + 3)] ++ items body (b :: bs) [] ++
+              [.stage [⟨bs.foldl min b, .cds (bs.foldl max b - bs.foldl min b)⟩] [] false] ++
+              items body (b :: bs) [] ++ [.loopEnd] := by simp [items]
+        rw [this]
+        simp only [itemStages_append, itemStages, List.nil_append, List.append_nil]
+        have hg : gateStages (.loop (k + 3) body) (b :: bs) false =
+            gateStages body (b :: bs) false ++
+              [[(bs.foldl min b, .cds (bs.foldl max b - bs.foldl min b) "\\cdots")]] ++
+              gateStages body (b :: bs) false := by
+          rw [gateStages] <;> simp
+        rw [hg]
+        simp only [visible_append]
+        refine (hb.append ?_).append hb
+        simp only [visible, List.filter_cons, allWire, List.all_cons, List.all_nil, Bool.and_true, List.filter_nil]
+        simp [StagesMatch, StageMatches, accepts]
+theorem subsStages_items : ∀ (ops : Subs) (bits : List Nat), topOkSubs ops bits = true →
+    subsMalformed ops bits = false →
+    StagesMatch (visible (subsStages ops bits false)) (itemStages (subItems ops bits []))
+  | .nil, bits, _, _ => by simp [subsStages, subItems, visible, itemStages, StagesMatch]
+  | .cons g sb rest, bits, ht, hm => by
+    simp only [topOkSubs, Bool.and_eq_true] at ht
+    simp only [subsMalformed, Bool.or_eq_false_iff] at hm
+    have hsb := subBits_eq_mapBits bits sb hm.1.1
+    rw [hsb] at ht
+    have h1 := gateStages_items g _ ht.1 hm.1.2
+    have h2 := subsStages_items rest bits ht.2 hm.2
+    have : subItems (.cons g sb rest) bits [] = items g (mapBits bits sb) [] ++ subItems rest bits [] := by
+      simp [subItems]
+    rw [this, itemStages_append]
+    simp only [subsStages, hsb, visible_append]
+    exact h1.append h2
+end
+
+/-! ## Whole operations -/
+
+theorem measAll_items (nq : Nat) (b : Option String) : ∀ (cbits : List Nat) (q : Nat),
+    StagesMatch (visible (measAllStages nq b cbits q))
+      (itemStages ((cbits.zipIdx q).map fun (c, q') => Item.stage [⟨q', .meter b⟩, ⟨nq + c, .measEnd⟩] [] true))
+  | [], _ => by simp [measAllStages, visible, itemStages, StagesMatch]
+  | c :: rest, q => by
+    have ih := measAll_items nq b rest (q + 1)
+    simp only [measAllStages, List.zipIdx_cons, List.map_cons, itemStages]
+    have hv : allWire (measStage nq q c b) = false := by simp [allWire, measStage]
+    simp only [visible, List.filter_cons, hv, Bool.not_false, if_true, StagesMatch]
+    refine ⟨?_, ih⟩
+    constructor <;> simp [measStage, accepts]
+
+/-- Operations whose reference stages are grouped like the reader's items (reset_all and barrier are
+grouped differently by the reader: one stage per qubit / one stage for all runs). -/
+def matchable : Op → Bool
+  | .resetAll | .barrier _ => false
+  | _ => true
+
+/-- **stages_are_expected** — for every operation of the proved class with a well-formed operand
+list (except reset_all and barrier, see `matchable`): the visible reference stages match, one by one
+and in order, the stage items the independent reader `Spec.QcGrid.opItems` demands. -/
+theorem opStages_items (nq : Nat) (op : Op) (hop : opOk op = true) (hm : op.malformed nq = false)
+    (hk : matchable op = true) :
+    StagesMatch (visible (opStages nq op)) (itemStages (opItems nq op)) := by
+  cases op with
+  | gate g bits => exact gateStages_items g bits hop hm
+  | cond control target g bits =>
+    simp only [opOk, condOk, Bool.and_eq_true, decide_eq_true_eq] at hop
+    obtain ⟨marks, covers, conn, ws, hi, hs, hmatch⟩ :=
+      stage_is_expected nq (.cond control target g bits) (by simp [oneColumn, hop.1.1.1, hop.1.1.2])
+    rw [hi, hs]
+    -- the stage contains a gate part, so it is visible
+    have hb : bits ≠ [] := by
+      intro hb; subst hb; have := hop.1.1.2; rw [goodPlace_ne_nil] at this; cases this
+    obtain ⟨b, hb'⟩ := List.exists_mem_of_ne_nil bits hb
+    obtain ⟨p, hp, _, hgp⟩ := writes_cover g bits true hop.1.1.1 hop.1.1.2 b hb'
+    have hws : ws = condStage nq control target g bits := by
+      simp only [opStages] at hs; injection hs with hs; exact hs.symm
+    have hv : allWire ws = false := by
+      rw [← Bool.not_eq_true]
+      intro hall
+      have hin : p ∈ ws := by
+        rw [hws]
+        match bits, hb, hp with
+        | q0 :: qs, _, hp => exact List.mem_append_left _ hp
+      have := List.all_eq_true.mp hall p hin
+      have hq : p.2 = .qw := by simpa using this
+      rw [hq] at hgp; simp [Sym.isGatePart] at hgp
+    simp only [visible, List.filter_cons, hv, Bool.not_false, if_true, List.filter_nil, itemStages, StagesMatch,
+      and_true]
+    exact hmatch
+  | measure q c b =>
+    simp only [opStages, opItems, itemStages]
+    have hv : allWire (measStage nq q c (basisLabel b)) = false := by simp [allWire, measStage]
+    simp only [visible, List.filter_cons, hv, Bool.not_false, if_true, List.filter_nil, StagesMatch, and_true]
+    rw [basisLabel_eq]
+    constructor <;> simp [measStage, accepts]
+  | measureAll cbits b =>
+    simp only [opStages, opItems]
+    rw [basisLabel_eq]
+    exact measAll_items nq (basisText b) cbits 0
+  | reset q =>
+    have hv : allWire [(q, Sym.reset)] = false := by simp [allWire]
+    simp only [opStages, opItems, itemStages, visible, List.filter_cons, hv, Bool.not_false, if_true,
+      List.filter_nil, StagesMatch, and_true]
+    constructor <;> simp [accepts]
+  | resetAll => simp [matchable] at hk
+  | barrier _ => simp [matchable] at hk
+  | peek _ _ _ => simp [opStages, opItems, visible, itemStages, StagesMatch]
+  | peekAll _ _ => simp [opStages, opItems, visible, itemStages, StagesMatch]
 
 end Q1t.Proofs.Latex
